@@ -36,6 +36,16 @@ Meaning of the Rust constructs, given ONCE here:
   `impl ZipStreamVisitor` and the visitor's value, and returns the visitor's value).
 * a `&mut self` method with `&mut` parameters returns its value together with `self` and those parameters as it left
   them; after an `Err` they are not observable (every caller in the subset returns at once on `?`).
+  The ONE exception is a "collector": a `&mut self` method of the seekable archive whose body is exactly one
+  `for i in lo..hi { body }` followed by `Ok(())`, with one `&mut Vec` parameter that is the loop's only carried
+  variable, and whose caller binds the `Result` (`let placed = self.f(.., &mut v);`) and goes on using `v`
+  (`ZipArchive::place_entries`).  It is an `X.K` computation (`X.forRangeK`): the vector as it is when the function
+  returns, `Ok` or `Err`, is part of the result.  `rs2lean` accepts the shape only when every write to the vector in
+  the loop body FOLLOWS the last `?` of the body (top-level statements), so that a round that fails has not touched
+  it: the vector at an `Err` is the one the last complete round left.
+* `let r = f(..);` for a translated `f` returning a `Result`, WITHOUT `?`: the `Result` is a value (`X.attempt`, for
+  a collector `X.keep`); a panic still ends everything.  `r?;` later is `X.ofRes r` (with `X.io` for an `io::Result`
+  in a function returning `ZipResult`).
 * the `Drop` of an entry handle acts on the archive reader only (it drains a streamed entry: `Tie/Drain.lean`), which
   this mode does not model: it is part of `SrcOps.by_index` / `StreamOps.visit`.
 -/
@@ -101,6 +111,41 @@ def forRange (lo hi : UInt64) (body : UInt64 → σ → X W E σ) (s : σ) : X W
 def forVec : List α → (α → σ → X W E σ) → σ → X W E σ
   | [], _, s => ret s
   | x :: xs, body, s => bind' (body x s) (fun s' => forVec xs body s')
+
+/-- a collector (see the head of the file): the world, the `&mut` vector as the function left it, the outcome -/
+def K (W E σ : Type) : Type := W → W × σ × XOut E Unit
+
+/-- the rounds of a collector's loop: a round that fails leaves the carried value as the previous round left it -/
+def forNK (body : UInt64 → σ → X W E σ) : Nat → UInt64 → σ → K W E σ
+  | 0, _, s => fun w => (w, s, .ok ())
+  | n + 1, i, s => fun w =>
+    match body i s w with
+    | (w1, .ok s') => forNK body n (i + 1) s' w1
+    | (w1, .err e) => (w1, s, .err e)
+    | (w1, .panic) => (w1, s, .panic)
+
+/-- `for i in lo..hi { body }; Ok(())` of a collector -/
+def forRangeK (lo hi : UInt64) (body : UInt64 → σ → X W E σ) (s : σ) : K W E σ :=
+  forNK body (hi.toNat - lo.toNat) lo s
+
+/-- `let r = self.f(.., &mut v);` for a collector `f`: the `Result` as a value, and `v` -/
+def keep {E' : Type} (x : K W E σ) : X W E' (Except E Unit × σ) := fun w =>
+  match x w with
+  | (w1, s, .ok ()) => (w1, .ok (.ok (), s))
+  | (w1, s, .err e) => (w1, .ok (.error e, s))
+  | (w1, _, .panic) => (w1, .panic)
+
+/-- `let r = f(..);` for a translated `f` returning a `Result`: the `Result` as a value -/
+def attempt {E' : Type} (x : X W E α) : X W E' (Except E α) := fun w =>
+  match x w with
+  | (w1, .ok a) => (w1, .ok (.ok a))
+  | (w1, .err e) => (w1, .ok (.error e))
+  | (w1, .panic) => (w1, .panic)
+
+/-- `r?` for a `Result` value -/
+def ofRes : Except E α → X W E α
+  | .ok a => ret a
+  | .error e => throw e
 
 end X
 
